@@ -61,7 +61,7 @@ func vfWhole(i Input) error {
 }
 
 func VF_C11_meta_pkg() {
-	s := vfStr("pkg", vfN(8, 12))
+	s := vfStr("pkg", vfN(8, 24))
 	ok := vfInRe(s, az(docIdent))
 	vfAssert((ValidateMetaPkg(Meta{Pkg: &s}) == nil) == ok, "meta.pkg accepted iff Go identifier")
 	err := vfWhole(Input{Meta: Meta{Pkg: &s}})
@@ -73,7 +73,7 @@ func VF_C11_meta_pkg() {
 }
 
 func VF_C11_meta_type() {
-	s := vfStr("ct", vfN(8, 12))
+	s := vfStr("ct", vfN(8, 24))
 	ok := vfInRe(s, az(docIdent))
 	vfAssert((ValidateMetaContainerType(Meta{ContainerType: &s}) == nil) == ok, "meta.container_type accepted iff Go identifier")
 	err := vfWhole(Input{Meta: Meta{ContainerType: &s}})
@@ -85,7 +85,7 @@ func VF_C11_meta_type() {
 }
 
 func VF_C11_meta_ctor() {
-	s := vfStr("cc", vfN(8, 12))
+	s := vfStr("cc", vfN(8, 24))
 	ok := vfInRe(s, az(docIdent))
 	vfAssert((ValidateMetaContainerConstructor(Meta{ContainerConstructor: &s}) == nil) == ok, "meta.container_constructor accepted iff Go identifier")
 	err := vfWhole(Input{Meta: Meta{ContainerConstructor: &s}})
@@ -97,7 +97,7 @@ func VF_C11_meta_ctor() {
 }
 
 func VF_C11_import_alias() {
-	a := vfStr("alias", vfN(8, 12))
+	a := vfStr("alias", vfN(8, 24))
 	ok := vfInRe(a, az(docName))
 	err := ValidateMetaImports(Meta{Imports: map[string]string{a: "my/pkg"}})
 	vfAssert((err == nil) == ok, "import alias accepted iff name grammar")
@@ -109,7 +109,7 @@ func VF_C11_import_alias() {
 }
 
 func VF_C11_import_path() {
-	p := vfStr("path", vfN(8, 11))
+	p := vfStr("path", vfN(8, 20))
 	ok := vfInRe(p, az(docImport))
 	err := ValidateMetaImports(Meta{Imports: map[string]string{"a": p}})
 	vfAssert((err == nil) == ok, "import path accepted iff import grammar")
@@ -121,7 +121,7 @@ func VF_C11_import_path() {
 }
 
 func VF_C11_fn_name() {
-	f := vfStr("fn", vfN(8, 12))
+	f := vfStr("fn", vfN(8, 24))
 	ok := vfInRe(f, az(docIdent))
 	err := ValidateMetaFunctions(Meta{Functions: map[string]string{f: "os.Getenv"}})
 	vfAssert((err == nil) == ok, "function name accepted iff Go identifier")
@@ -133,7 +133,7 @@ func VF_C11_fn_name() {
 }
 
 func VF_C11_fn_gofunc() {
-	g := vfStr("gofn", vfN(8, 11))
+	g := vfStr("gofn", vfN(8, 20))
 	ok := vfInRe(g, az(docGoFunc))
 	err := ValidateMetaFunctions(Meta{Functions: map[string]string{"f": g}})
 	vfAssert((err == nil) == ok, "go function accepted iff [import.]identifier")
@@ -145,7 +145,7 @@ func VF_C11_fn_gofunc() {
 }
 
 func VF_C11_param_name() {
-	n := vfStr("name", vfN(8, 12))
+	n := vfStr("name", vfN(8, 24))
 	ok := vfInRe(n, az(docName))
 	err := ValidateParams(Input{Params: map[string]any{n: 1}})
 	vfAssert((err == nil) == ok, "parameter name accepted iff name grammar")
@@ -175,7 +175,7 @@ func VF_C11_param_value() {
 }
 
 func VF_C11_service_name() {
-	n := vfStr("name", vfN(8, 12))
+	n := vfStr("name", vfN(8, 24))
 	ok := vfInRe(n, az(docName))
 	vfAssert((ValidateServiceName(n) == nil) == ok, "service name accepted iff name grammar")
 	err := vfWhole(Input{Services: map[string]Service{n: vfValidService()}})
@@ -202,7 +202,7 @@ func vfReserved(g string) bool {
 }
 
 func VF_C11_getter() {
-	g := vfStr("getter", vfN(12, 18))
+	g := vfStr("getter", vfN(12, 32))
 	s := vfValidService()
 	s.Getter = &g
 	ok := vfInRe(g, az(docIdent)) && !vfReserved(g) && !strings.HasPrefix(g, "Must") && !strings.HasSuffix(g, "InContext")
@@ -217,7 +217,7 @@ func VF_C11_getter() {
 }
 
 func VF_C11_type() {
-	t := vfStr("type", vfN(8, 11))
+	t := vfStr("type", vfN(8, 20))
 	s := Service{Type: &t}
 	ok := vfInRe(t, az(docType))
 	vfAssert((ValidateServiceType(s) == nil) == ok, "type accepted iff [*][import.]identifier")
@@ -230,7 +230,7 @@ func VF_C11_type() {
 }
 
 func VF_C11_value() {
-	v := vfStr("value", vfN(8, 11))
+	v := vfStr("value", vfN(8, 20))
 	s := Service{Value: &v}
 	ok := vfInRe(v, az(docValue))
 	vfAssert((ValidateServiceValue(s) == nil) == ok, "value accepted iff documented value form")
@@ -243,7 +243,7 @@ func VF_C11_value() {
 }
 
 func VF_C11_constructor() {
-	c := vfStr("ctor", vfN(8, 11))
+	c := vfStr("ctor", vfN(8, 20))
 	s := Service{Constructor: &c}
 	ok := vfInRe(c, az(docGoFunc))
 	vfAssert((ValidateServiceConstructor(s) == nil) == ok, "constructor accepted iff [import.]identifier")
@@ -270,7 +270,7 @@ func VF_C11_args() {
 }
 
 func VF_C11_call() {
-	m := vfStr("method", vfN(8, 12))
+	m := vfStr("method", vfN(8, 24))
 	a := vfAny("a", 1)
 	s := vfValidService()
 	s.Calls = []Call{{Method: "Ok"}, {Method: m, Args: []any{a}}}
@@ -285,7 +285,7 @@ func VF_C11_call() {
 }
 
 func VF_C11_field() {
-	f := vfStr("field", vfN(8, 12))
+	f := vfStr("field", vfN(8, 24))
 	v := vfAny("v", 1)
 	s := vfValidService()
 	s.Fields = map[string]any{f: v}
@@ -300,7 +300,7 @@ func VF_C11_field() {
 }
 
 func VF_C11_tags() {
-	t0, t1 := vfStr("t0", vfN(4, 6)), vfStr("t1", vfN(4, 6))
+	t0, t1 := vfStr("t0", vfN(4, 10)), vfStr("t1", vfN(4, 10))
 	s := vfValidService()
 	s.Tags = []Tag{{Name: t0, Priority: vfInt("p0")}, {Name: t1, Priority: vfInt("p1")}}
 	ok := vfInRe(t0, az(docName)) && vfInRe(t1, az(docName)) && t0 != t1
@@ -319,10 +319,10 @@ func VF_C11_decorator() {
 	ok := true
 	switch which {
 	case 0:
-		d.Tag = vfStr("tag", vfN(8, 12))
+		d.Tag = vfStr("tag", vfN(8, 24))
 		ok = vfInRe(d.Tag, az(docDecTag))
 	case 1:
-		d.Decorator = vfStr("method", vfN(8, 11))
+		d.Decorator = vfStr("method", vfN(8, 20))
 		ok = vfInRe(d.Decorator, az(docGoFunc))
 	case 2:
 		a := vfAny("a", 1)
